@@ -181,7 +181,7 @@ def scenario(reactor, inp):
             go.set()
             for t in threads:
                 t.join()
-            complete = done.wait(ROUND_WATCHDOG_S)
+            complete = done.wait(5.0 if errors else ROUND_WATCHDOG_S)
             complete_r = complete and done_r.wait(R_WATCHDOG_S)
         finally:
             inj.stop()
@@ -214,7 +214,10 @@ def scenario(reactor, inp):
                 ev.set()
 
             t0 = time.monotonic()
-            reactor.callFromThread(idle_record)
+            try:
+                reactor.callFromThread(idle_record)
+            except BaseException as e:
+                return {"raised": "%s: %s" % (type(e).__name__, e), "rep": rep}
             if not ev.wait(IDLE_BOUND_S):
                 missed = {"rep": rep, "waited_s": round(time.monotonic() - t0, 3)}
                 break
@@ -234,22 +237,29 @@ def scenario(reactor, inp):
 
             result["problems"].append("driver exception: " + "".join(traceback.format_exception(type(e), e, e.__traceback__))[-1200:])
         finally:
-            reactor.callFromThread(reactor.stop)
-            # explicit nudge: with a broken callFromThread wake-up the stop request would sit in the
-            # queue forever and the verdict already recorded could not be reported
-            time.sleep(0.05)
             try:
+                reactor.callFromThread(reactor.stop)
+                # explicit nudge: with a broken callFromThread wake-up the stop request would sit in
+                # the queue forever and the verdict already recorded could not be reported
+                time.sleep(0.05)
                 reactor.wakeUp()
-            except Exception:
+            except BaseException:
                 pass
+            if not stopped.wait(20):
+                from vf.engines import reactorproc
+
+                result["problems"].append("reactor could not be stopped through callFromThread")
+                reactorproc.emit_and_exit(result, reactor)
 
     def begin():
         st["reactor_ident"] = threading.get_ident()
         tick()
         threading.Thread(target=driver, daemon=True).start()
 
+    stopped = threading.Event()
     reactor.callWhenRunning(begin)
     reactor.run()
+    stopped.set()
     return result
 
 
@@ -358,6 +368,10 @@ def judge(ctx, name, out):
     idle = out.get("idle")
     if idle is None:
         ctx.inconclusive("C13 %s: idle phase not reached" % name)
+        return
+    if "raised" in idle:
+        ctx.violation("callfromthread-raised", "callFromThread raised in the issuing thread while the reactor was running (the call cannot run)",
+                      {"reactor": name, "phase": "idle", "raised": idle["raised"], "rep": idle["rep"]})
         return
     if idle["timers_left_when_idle"] or idle["writers"]:
         ctx.inconclusive("C13 %s: reactor was not idle in the idle phase: %r" % (name, idle))
